@@ -9,7 +9,7 @@ import json, re
 import mirsmt, mirexec
 from mirsmt import Untranslatable, pc_term
 from miragg import calls, ret_ok_status
-from mirblocks import enum_variants, struct_fields, disc, field, payload, iterations, m_result_opq
+from mirblocks import enum_variants, struct_fields, disc, field, payload, iterations, m_result_opq, unary_empty_on_expr
 
 RC_NEW = "re:(?:^|::)Rc::<.*>::new$"
 
@@ -2764,7 +2764,7 @@ SITES = {
     "C07": [flags_verdict_wiring, reporter_chain, library_entry_wiring, structured_report, junit_test_case, validate_execute_step,
             data_input_params_wiring, structured_merge_closure],
     "C16": [test_generic_report, test_get_by_result, test_get_by_rules, test_structured_evaluate],
-    "C09": [report_partition, report_rule_listing, report_combine_union],
+    "C09": [report_partition, report_rule_listing, report_combine_union, unary_empty_on_expr],
     "C15": [scope_resolution, param_rule_call, param_ctx_resolve],
     "C04": [rule_status_semantics],
     "C01": [rule_status_semantics],
